@@ -18,6 +18,8 @@ structure Rep where
   writer : Bytes
   /-- clock ids (= writer public keys) the replica's access controller refuses -/
   deny : List Bytes := []
+  /-- the controller also refuses reserved payloads ('!…'), whoever wrote them -/
+  denyBang : Bool := false
   /-- hashes whose entry OBJECT in this replica is an invalid variant (tampered copy) -/
   invalid : List Hash := []
   /-- hashes whose entry object here has had its (unsigned) identity stripped: refused by a controller that
@@ -42,6 +44,8 @@ structure St where
   shared : Bool := false
   acl : Bool := false
   keyed : Bool := false
+  /-- entries with a reserved payload ('!…'): refused by controllers with the bang rule -/
+  banged : List Hash := []
   sort : SortKind := .lww
   lineNo : Nat := 0
   hist : String := ""
@@ -127,7 +131,7 @@ def handle (s : St) (line : String) : St :=
       | some x => parseSort (x.drop 5).toString
       | none => .lww
     { s with uni := {}, store := [], reps := #[], shared := shared, acl := acl, sort := sk, hist := idx, inExchange := false,
-             keyed := rest.any (· == "keyed=true") }
+             keyed := rest.any (· == "keyed=true"), banged := [] }
   | ["U", a, cidS] =>
     { s with uni := s.uni.insert a { hash := strBytes cidS, logId := [], next := [], refs := [], clock := { id := [], time := 0 } } }
   | ["E", a, cidS, logId, clk, time, nx, rf] =>
@@ -138,8 +142,10 @@ def handle (s : St) (line : String) : St :=
     let t0 := match t0L with | t :: _ => toInt! t | [] => 0
     let l : Log := { id := strBytes logId, entries := [], heads := [], nextIdx := [],
                      clock := { id := strBytes clk, time := t0 }, sortFn := parseSort sk }
-    s.setRep r.toNat! { log := l, writer := strBytes clk, deny := (parseList deny).map strBytes }
-  | ["A", r, pc, a] =>
+    s.setRep r.toNat! { log := l, writer := strBytes clk, deny := (parseList deny).map strBytes,
+                        denyBang := (parseList deny).contains "bang" }
+  | "A" :: r :: pc :: a :: bangL =>
+    let bang := bangL == ["bang"]
     let s := { s with lastOp := "append" }
     match s.rep? r.toNat! with
     | none => s.diff "append-unknown-replica" r ""
@@ -148,11 +154,12 @@ def handle (s : St) (line : String) : St :=
       if a == "!denied" then
         -- C06: a denied append leaves entries and heads unchanged (the clock has already advanced)
         let s := s.count "cmp:append.denied"
-        let s := if rep.deny.contains rep.log.clock.id then s else s.diff "append.denied" "ok" "denied"
+        let s := if rep.deny.contains rep.log.clock.id || (rep.denyBang && bang) then s else s.diff "append.denied" "ok" "denied"
         s.setRep r.toNat! { rep with log := { rep.log with clock := (appendPlan rep.log (toInt! pc)).clock } }
       else
-      let s := if rep.deny.contains rep.log.clock.id then s.diff "append.denied" "denied" "ok" else s
+      let s := if rep.deny.contains rep.log.clock.id || (rep.denyBang && bang) then s.diff "append.denied" "denied" "ok" else s
       let ie := s.ent a
+      let s := if bang then { s with banged := ie.hash :: s.banged } else s
       let plan := appendPlan rep.log (toInt! pc)
       let s := s.count "cmp:append"
       let s := if plan.next == ie.next || (rep.orderFree && sameSetH plan.next ie.next) then s
@@ -176,7 +183,7 @@ def handle (s : St) (line : String) : St :=
       let fix (e : Entry) : Entry := if widH.contains e.hash then { e with logId := strBytes "Z" } else e
       let l' : Log := { sr.log with entries := sr.log.entries.map fix, heads := sr.log.heads.map fix,
                                     clock := { id := sr.log.clock.id, time := maxTime sr.log.heads 0 } }
-      s.setRep r.toNat! { sr with log := l', invalid := sr.invalid ++ s.hs (parseList inv), noIdent := sr.noIdent ++ s.hs (parseList nid), deny := [],
+      s.setRep r.toNat! { sr with log := l', invalid := sr.invalid ++ s.hs (parseList inv), noIdent := sr.noIdent ++ s.hs (parseList nid), deny := [], denyBang := false,
                                   hasWrongId := sr.hasWrongId || !widH.isEmpty, partialLog := true, lastE := [], lastV := [] }
   | ["S", r, clk] =>
     let s := { s with lastOp := "setid" }
@@ -195,14 +202,14 @@ def handle (s : St) (line : String) : St :=
       if r == r2 then (if res == "ok" then s else s.diff "join.self" "ok" res) else
       let sz := toInt! size
       match join a.log b.log.id b.log.entries b.log.heads sz
-          (fun e => !a.deny.contains e.clock.id && !b.invalid.contains e.hash && (a.deny.isEmpty || !b.noIdent.contains e.hash)) with
+          (fun e => !a.deny.contains e.clock.id && !(a.denyBang && s.banged.contains e.hash) && !b.invalid.contains e.hash && (a.deny.isEmpty || !b.noIdent.contains e.hash)) with
       | .err =>
         if res == "err" then s.count "cmp:join.rejected" else
         -- C06 on the implementation's own answer: the join returned without error although the source holds,
         -- among the entries the destination lacks, one that is denied, forged or carries no identity
         let implA := s.ents a.lastE   -- the destination as last observed on the implementation
         let bad (e : Entry) : Bool := !has a.log.entries e.hash && !has implA e.hash &&
-          (a.deny.contains e.clock.id || b.invalid.contains e.hash || (!a.deny.isEmpty && b.noIdent.contains e.hash))
+          (a.deny.contains e.clock.id || (a.denyBang && s.banged.contains e.hash) || b.invalid.contains e.hash || (!a.deny.isEmpty && b.noIdent.contains e.hash))
         let offenders := (b.log.entries.filter bad).map (·.hash)
         (s.diff "join.result" "err" res).spec "C06" "unauthorisedRefused" (res != "ok" || offenders.isEmpty)
           (s!"join {r} {r2} {size} returned {res}; offending entries: " ++ showH s offenders)
@@ -226,8 +233,8 @@ def handle (s : St) (line : String) : St :=
         -- C06: everything that was added is valid, authorised and carries the log's id
         let added := l'.entries.filter (fun e => !has a.log.entries e.hash)
         let s := s.spec "C06" "admittedValid" (added.all (fun e =>
-          !a.deny.contains e.clock.id && !b.invalid.contains e.hash && (a.deny.isEmpty || !b.noIdent.contains e.hash) && e.logId == a.log.id))
-          (s!"join {r} {r2}: " ++ showH s ((added.filter (fun e => !( !a.deny.contains e.clock.id && !b.invalid.contains e.hash && (a.deny.isEmpty || !b.noIdent.contains e.hash) && e.logId == a.log.id))).map (·.hash)))
+          !a.deny.contains e.clock.id && !(a.denyBang && s.banged.contains e.hash) && !b.invalid.contains e.hash && (a.deny.isEmpty || !b.noIdent.contains e.hash) && e.logId == a.log.id))
+          (s!"join {r} {r2}: " ++ showH s ((added.filter (fun e => !( !a.deny.contains e.clock.id && !(a.denyBang && s.banged.contains e.hash) && !b.invalid.contains e.hash && (a.deny.isEmpty || !b.noIdent.contains e.hash) && e.logId == a.log.id))).map (·.hash)))
         s.setRep r.toNat! { a with log := l', invalid := a.invalid.filter (fun h => has l'.entries h),
                                    noIdent := a.noIdent.filter (fun h => has l'.entries h) ++ (b.noIdent.filter (fun h => has l'.entries h && !has a.log.entries h)),
                                    partialLog := a.partialLog || cut || ((b.partialLog || b.hasWrongId) && a.log.id == b.log.id),
